@@ -7,3 +7,16 @@ for p in C01 C02 C03 C04 C05 C06 C07 C08 C09 C10 C11 C12 C13 C14 C15 C16 C17 C18
   e=$(( $(date +%s) - s ))
   echo "$p exit=$rc ${e}s $(echo "$out" | grep -c '^VIOLATION') violations, $(echo "$out" | grep -c '^KNOWN-FINDING') known | $(echo "$out" | grep '^MACHINERY' | head -1 | cut -c1-150)"
 done
+python3-vt - <<'PY'
+import json, jsonschema, glob
+sch = json.load(open('/root/.vp/EVIDENCE.schema.json'))
+bad = 0
+for f in sorted(glob.glob('/verif/evidence/*.json')):
+    try:
+        jsonschema.validate(json.load(open(f)), sch)
+    except Exception as e:
+        bad += 1
+        print(f, 'EVIDENCE INVALID:', str(e)[:200])
+jsonschema.validate(json.load(open('/verif/MANIFEST.json')), json.load(open('/root/.vp/MANIFEST.schema.json')))
+print(f"evidence files invalid: {bad}; manifest valid")
+PY
